@@ -9,7 +9,7 @@ Context {VS : Val} (AR : Arith VS).
 Variable pk : formula -> formula -> pkind.
 
 Definition off_ok (p : formula) (w : trace) (n : nat) : Prop :=
-  1 <= n /\ wf_bounds p = true /\ no_precedes p = true /\ wf_trace p w n.
+  1 <= n /\ wf_bounds p = true /\ wf_trace p w n.
 Definition on_ok (p : formula) : Prop := past_only p = true /\ wf_bounds p = true.
 
 Lemma off_equiv p q w n :
@@ -17,7 +17,7 @@ Lemma off_equiv p q w n :
   (forall t, t < n -> rho AR pk p w n t = rho AR pk q w n t) ->
   eval_off AR pk p w n = eval_off AR pk q w n.
 Proof.
-  intros (H1 & H2 & H3 & H4) (_ & G2 & G3 & G4) H.
+  intros (H1 & H2 & H4) (_ & G2 & G4) H.
   rewrite !eval_off_correct by assumption. apply tab_ext. exact H.
 Qed.
 
@@ -34,7 +34,7 @@ Qed.
 
 Lemma off_value p w n t d : off_ok p w n -> t < n ->
   nth t (eval_off AR pk p w n) d = rho AR pk p w n t.
-Proof. intros (H1 & H2 & H3 & H4) Ht. apply eval_off_nth; assumption. Qed.
+Proof. intros (H1 & H2 & H4) Ht. apply eval_off_nth; assumption. Qed.
 
 Lemma on_value p w n len t d : on_ok p -> t < len ->
   nth t (snd (mon_run AR pk [p] dict_init w 0 len)) d = rho AR pk p w n t.
